@@ -1,7 +1,7 @@
 (* sexp <-> message / session values for the driver. *)
 From Coq Require Import ZArith NArith List Bool.
 From Coq.Strings Require Import Byte.
-From SV Require Import Base.Bytes Base.Py Base.Sexp Gen.Generated Asn1.Model Msg.Types Msg.Encode Msg.Decode Msg.Rfc Msg.RfcDecode Sess.Model Filt.Text.
+From SV Require Import Base.Bytes Base.Py Base.Sexp Gen.Generated Asn1.Model Msg.Types Msg.Encode Msg.Decode Msg.Rfc Msg.RfcDecode Sess.Model Sess.Registry Filt.Text.
 Import ListNotations.
 Local Open Scope Z_scope.
 
@@ -194,6 +194,15 @@ Fixpoint run_trace (s : sess) (cs : list call) : list sexp :=
   | c :: rest => let '(s', o) := step budget s c in SList [s_outcome o; s_snapshot s'] :: run_trace s' rest
   end.
 
+(* ---- the per-session registries of custom types (C19) *)
+Definition g_rkind (s : sexp) : option rkind :=
+  match s with SInt 0 => Some RControl | SInt 1 => Some RFilter | SInt 2 => Some RAuth | _ => None end.
+Definition g_rid (s : sexp) : option rid := g_list g_n s.
+Definition g_regop (s : sexp) : option (rkind * rid * list N) :=
+  match s with SList [k; i; c] => k <-? g_rkind k ;; i <-? g_rid i ;; c <-? g_list g_n c ;; Some (k, i, c) | _ => None end.
+Definition g_regq (s : sexp) : option (rkind * rid) :=
+  match s with SList [k; i] => k <-? g_rkind k ;; i <-? g_rid i ;; Some (k, i) | _ => None end.
+
 Definition run_msg (cmd : Z) (args : list sexp) : option sexp :=
   match cmd, args with
   | 100, [m] => m <-? g_msg m ;; Some (SBytes (enc_msg m))
@@ -203,6 +212,11 @@ Definition run_msg (cmd : Z) (args : list sexp) : option sexp :=
       let b := enc_msg m in
       Some (SList [SBytes b; s_res (s_pair s_msg SBytes) (unpack_message budget (b ++ rest))])
   | 103, [d] => d <-? g_bytes d ;; Some (s_opt s_msg (strict_decode d))
+  | 150, [ops; qs] =>
+      ops <-? g_list g_regop ops ;; qs <-? g_list g_regq qs ;;
+      let '(os, r) := reg_run ops reg_init in
+      Some (SList [SList (map s_bool os);
+                   SList (map (fun q => s_opt (fun c => SList (map s_n c)) (reg_decodes (fst q) (snd q) r)) qs)])
   | 110, [SInt r; cs] =>
       cs <-? g_list g_call cs ;;
       Some (SList (run_trace (init (if r =? 0 then Client else Server)) cs))
